@@ -2153,6 +2153,10 @@ type poolPhase struct {
 	LB         int `json:"lb"` // 0 round robin, 1 random
 	Goroutines int `json:"goroutines"`
 	Picks      int `json:"picks"`
+	// Trigger: at the end of the phase every poller of the pool is sent Trigger this many times (Poll.Trigger is
+	// public; the holder of a picked poller may wake it at any time), so that the next reconfiguration or the
+	// final Close can meet a wake-up that the loop has not consumed yet
+	Trigger int `json:"trigger,omitempty"`
 }
 
 type poolScn struct {
@@ -2288,6 +2292,11 @@ func runPool(s poolScn) (sig, msg string) {
 		if !ok {
 			return "pool-descriptors", fmt.Sprintf("phase %d: %d loops, expected %d epoll and %d wake-up descriptors, found %d and %d", pi, ph.Loops, want, base["eventfd"]+ph.Loops, now["eventpoll"], now["eventfd"])
 		}
+		for i := 0; i < ph.Trigger; i++ {
+			for _, p := range m.polls {
+				p.Trigger()
+			}
+		}
 	}
 	m.Close()
 	for i := 0; i < 600; i++ {
@@ -2323,7 +2332,8 @@ func TestVerifC18(t *testing.T) {
 		s := poolScn{First: rapid.IntRange(1, 5).Draw(t, "first")}
 		for i, n := 0, rapid.IntRange(1, 4).Draw(t, "phases"); i < n; i++ {
 			ph := poolPhase{Loops: rapid.IntRange(1, 6).Draw(t, "loops"), LB: rapid.IntRange(0, 1).Draw(t, "lb"),
-				Goroutines: rapid.SampledFrom([]int{1, 2, 8, 32}).Draw(t, "goroutines"), Picks: rapid.IntRange(1, 40).Draw(t, "picks")}
+				Goroutines: rapid.SampledFrom([]int{1, 2, 8, 32}).Draw(t, "goroutines"), Picks: rapid.IntRange(1, 40).Draw(t, "picks"),
+				Trigger: rapid.SampledFrom([]int{0, 0, 1, 1, 3}).Draw(t, "trigger")}
 			if i == 0 && rapid.Bool().Draw(t, "keepFirst") {
 				ph.Loops = s.First
 			}
